@@ -196,6 +196,13 @@ def build_net(wntr, spec):
     if spec["isolation"]:
         wn.add_junction("D", base_demand=0.003, elevation=2.0, demand_pattern="pat")
         wn.add_pipe("PD", "J%d" % (n - 1), "D", length=150.0, diameter=0.2, roughness=100)
+        iv = spec.get("iso_valve")
+        if iv:
+            # a valve INSIDE the zone that PD cuts off (its _is_isolated flag is set while the zone is isolated)
+            wn.add_junction("D2", base_demand=0.002, elevation=1.0, demand_pattern="pat")
+            wn.add_valve("VD", "D", "D2", diameter=0.2, valve_type=iv["type"], minor_loss=0.0, initial_setting=iv["setting"])
+            if iv["parallel"]:
+                wn.add_pipe("PDP", "D", "D2", length=300.0, diameter=0.1, roughness=100)
     o = wn.options
     o.time.hydraulic_timestep = spec["hyd"]
     o.time.rule_timestep = spec["rule"]
@@ -449,6 +456,17 @@ class C10(Check):
                             val = getattr(x, "value", None)
                             if (val is not None and mentions_wn(val)) or meth_wn:
                                 reads_wn.add(c[0])
+        # which element collections of the network the prologue iterates over to rebuild `_prev_isolated_*`
+        iso_src = {"_prev_isolated_junctions": set(), "_prev_isolated_links": set()}
+        for n in prologue:
+            for x in ast.walk(n):
+                for e in targets(x):
+                    c = chain(e)
+                    if c and len(c) == 1 and c[0] in iso_src and getattr(x, "value", None) is not None:
+                        for y in ast.walk(x.value):
+                            cy = chain(y) if isinstance(y, ast.Attribute) else None
+                            if cy and len(cy) == 2 and cy[0] == "_wn" and cy[1] not in ("get_link", "get_node"):
+                                iso_src[c[0]].add(cy[1])
         init_only = set()
         for x in ast.walk(methods["__init__"]):
             for e in targets(x):
@@ -467,6 +485,8 @@ class C10(Check):
                 + lst("assignedInPrologue", assigned, "attributes assigned by run_sim BEFORE the loop or by a method called from there (not `__init__`)")
                 + lst("prologueReadsWn", reads_wn, "… whose assigned expression (or assigning method) reads `self._wn`")
                 + lst("initOnly", init_only, "attributes assigned in `__init__` only")
+                + lst("prevIsoJunctionSources", iso_src["_prev_isolated_junctions"], "collections of `self._wn` the prologue iterates over to rebuild `_prev_isolated_junctions`")
+                + lst("prevIsoLinkSources", iso_src["_prev_isolated_links"], "… to rebuild `_prev_isolated_links`")
                 + "\nend Wntr.Gen.RestartFields\n")
         vlib.write_if_changed(os.path.join(vlib.GEN, "RestartFields.lean"), text)
         ctx.cov["restart_fields"] = {"stored_in_loop": sorted(stored), "wn_stored_in_loop": sorted(wn_stored), "read_in_loop": len(read)}
@@ -645,6 +665,32 @@ class C10(Check):
                 continue
             self._run_net_case(ctx, wntr, spec, pauses, rng.random() < 0.5, failures, tag)
 
+    def _iso_valve_family(self, ctx, failures, n):
+        """designed: a PRV / PSV / FCV / TCV inside the zone that a time control cuts off (with and without a parallel pipe
+        around the valve); the run is paused WHILE the zone is isolated and the zone is reconnected within the first
+        hydraulic step of the continuation (also exactly on it), so the flags the first part left must be cleared by the
+        new simulator for EVERY link class"""
+        wntr = vlib.import_wntr()
+        rng = ctx.rng
+        for i in range(n):
+            vt = ["PRV", "PSV", "FCV", "TCV"][i % 4]
+            spec = gen_network(rng, ctx.quick, {"isolation": True, "report_all": i % 2 == 0, "valve": False, "cv": False, "leaks": False,
+                                                "rules": False, "clock_controls": False})
+            h = spec["hyd"]
+            steps = spec["duration"] // h
+            k = rng.randint(1, max(1, steps - 4))
+            close = k * h - rng.choice([0, rng.randint(1, h - 1)])
+            p = k * h if close <= k * h else (k + 1) * h
+            p += rng.choice([0, 0, h])                         # pause on the first or second grid point inside the window
+            opn = p + rng.choice([h, rng.randint(1, h - 1), rng.randint(1, h - 1)])  # reconnected within the first step of the continuation
+            if opn + h > spec["duration"]:
+                continue
+            spec["isolation"] = {"close": close, "open": opn}
+            setting = {"PRV": 15.0, "PSV": 10.0, "FCV": 0.0015, "TCV": 50.0}[vt]
+            spec["iso_valve"] = {"type": vt, "setting": setting, "parallel": i % 8 < 4}
+            ctx.count("net:iso-valve:%s:%s" % (vt, "parallel" if spec["iso_valve"]["parallel"] else "single"))
+            self._run_net_case(ctx, wntr, spec, [p], rng.random() < 0.5, failures, "iso-valve")
+
     def _completed_run_probe(self, ctx, failures, broken):
         """a run that is already complete must be left alone when it is 'continued' (pause on the last hydraulic step
         before an off-grid duration; run_sim called again without a new duration).  Returns True when the
@@ -706,11 +752,13 @@ class C10(Check):
         self._run_sched_paused(ctx, failures, broken, cases, "random")
         # (b)
         self._net_stream(ctx, failures, 40 if ctx.quick else 400)
+        self._iso_valve_family(ctx, failures, 8 if ctx.quick else 64)
         return failures, broken
 
     def search(self, ctx, broken):
         failures = []
         self._net_stream(ctx, failures, 60, "search")
+        self._iso_valve_family(ctx, failures, 16)
         b2 = []
         rng = ctx.rng
         cases = []
